@@ -6,7 +6,7 @@ import Driver.ArrJson
 import Driver.ReadJson
 import Driver.Suites.Build
 import SaModel.Roundtrip.Bridge
-import SaModel.Trace.FromType
+import SaModel.Trace.FromTypeG
 import SaModel.Lemmas.C04Interp
 import SaModel.Lemmas.C04Scope
 import SaModel.Lemmas.C04FromType
@@ -155,7 +155,7 @@ def check (j : Json) (opts : TraceOpts) (rows : List SVal) (fields : List Field)
   -- ---- (b) the tracer model on `toTraceTy t` vs `from_type::<T>`
   let ftJ := (getObj j "from_type").toOption.getD Json.null
   let ftCls := implCls ftJ
-  let model := Trace.fromType .fixed O (toTraceTy tD)
+  let model := Trace.fromTypeG .fixed O (toTraceTy tD)
   if ftCls == "ok" then
     match model with
     | .ok fs => if fs != fields then return { tags, bad := some ("from_type-fields", "`Trace.fromType (toTraceTy t)` returns other fields than `from_type::<T>`") }
